@@ -77,17 +77,17 @@ Print Assumptions reduce_eq_fold_static.
 
 (* What the invariant gives: the published root aggregate is the fold over the live values, with
    the zero rules by live count (spec_result). *)
-Theorem invariant_gives_fold : forall f cf, (forall a b c, f (f a b) c = f a (f b c)) -> c_lifted cf = true ->
+Theorem invariant_gives_fold : forall f cf, (forall a b c, f (f a b) c = f a (f b c)) -> c_lifted cf = true -> (c_has_zero cf = true -> c_zero_valid cf = true) ->
   forall st L vals k combs, tree_inv f cf st L vals k combs ->
   src_value cf st combs (agg_src cf L combs (root_aggregate (c_has_zero cf) (2 ^ k) (length L) (length combs)))
   = spec_result f cf vals.
-Proof. intros f cf Ha Hl. exact (ReduceFacts.tree_inv_result f cf). Qed.
+Proof. intros f cf Ha Hl Hz. exact (ReduceFacts.tree_inv_result f cf Hz). Qed.
 Print Assumptions invariant_gives_fold.
 
 (* The evaluation pass: visiting positions in descending heap order, when every present combine
    point that is NOT visited already holds the fold of its interval, leaves every present
    combine point holding the fold of its interval. *)
-Theorem evaluation_pass_correct : forall f cf, (forall a b c, f (f a b) c = f a (f b c)) -> c_lifted cf = true ->
+Theorem evaluation_pass_correct : forall f cf, (forall a b c, f (f a b) c = f a (f b c)) -> c_lifted cf = true -> (c_has_zero cf = true -> c_zero_valid cf = true) ->
   forall st L vals k, leaf_vals st L vals -> length L <= 2 ^ k ->
   forall R combs log w, desc_sorted R -> wf_presence cf L k combs ->
   (forall p, p < internals (2 ^ k) -> ~ In p R -> present combs p = true -> good f cf L vals k combs p) ->
@@ -103,7 +103,7 @@ Print Assumptions evaluation_pass_correct.
    followed by the evaluation pass over (structural positions holding a combiner) + (paths of
    [dm]) re-establishes the invariant for the new leaves: the root is again the fold.  Positions
    outside those paths are neither rebuilt nor re-evaluated, and need not be. *)
-Theorem reduce_eq_fold_partial : forall f cf, (forall a b c, f (f a b) c = f a (f b c)) -> c_lifted cf = true ->
+Theorem reduce_eq_fold_partial : forall f cf, (forall a b c, f (f a b) c = f a (f b c)) -> c_lifted cf = true -> (c_has_zero cf = true -> c_zero_valid cf = true) ->
   forall st st' k L vals L' vals' combs sleaves dm extra combs1 cr rt,
   tree_inv f cf st L vals k combs ->
   leaf_vals st' L' vals' -> length L' <= 2 ^ k ->
@@ -119,7 +119,7 @@ Print Assumptions reduce_eq_fold_partial.
 
 (* One cycle with a full rebuild: first publication, or growth into the other bank with every
    combine point created afresh ("any capacity history"): no assumption on the old tree. *)
-Theorem reduce_eq_fold_growth_partial : forall f cf, (forall a b c, f (f a b) c = f a (f b c)) -> c_lifted cf = true ->
+Theorem reduce_eq_fold_growth_partial : forall f cf, (forall a b c, f (f a b) c = f a (f b c)) -> c_lifted cf = true -> (c_has_zero cf = true -> c_zero_valid cf = true) ->
   forall st' k L' vals' combs0 combs1 cr rt dm extra,
   leaf_vals st' L' vals' -> length L' <= 2 ^ k -> (c_has_zero cf = true -> 1 <= k) ->
   length combs0 = internals (2 ^ k) ->
@@ -166,7 +166,7 @@ Print Assumptions capacity_is_a_power_of_two.
    invariant is re-established for the reconciled leaves L', the node is published, and the result
    is the fold (with the zero rules) over the new live values.  Hypotheses about the cycle concern
    the source collection only. *)
-Theorem reduce_eq_fold_cycle : forall f cf, (forall a b c, f (f a b) c = f a (f b c)) -> c_lifted cf = true ->
+Theorem reduce_eq_fold_cycle : forall f cf, (forall a b c, f (f a b) c = f a (f b c)) -> c_lifted cf = true -> (c_has_zero cf = true -> c_zero_valid cf = true) ->
   forall st0 st d coll zero s vals L' sl stc full pr vals',
   cycle_inv f cf st0 s vals -> coll || zero = true ->
   reconcile_leaves cf st d coll s = (L', sl, stc, full, pr) ->
@@ -184,13 +184,13 @@ Print Assumptions reduce_eq_fold_cycle.
    cycle makes it do (published_after_evaluation) - the published root is the fold of f over the
    values of the live leaves in dense order, with the zero rules.  [hist_ok] is the explicit
    source-collection hypothesis (C05), cycle by cycle. *)
-Theorem reduce_eq_fold : forall f cf, (forall a b c, f (f a b) c = f a (f b c)) -> c_lifted cf = true ->
+Theorem reduce_eq_fold : forall f cf, (forall a b c, f (f a b) c = f a (f b c)) -> c_lifted cf = true -> (c_has_zero cf = true -> c_zero_valid cf = true) ->
   forall h, hist_ok f cf rstate0 [] h -> r_published (run f cf h) = true ->
   result_of cf (fst (final (store0, []) h)) (run f cf h) = spec_result f cf (snd (final (store0, []) h)).
 Proof. exact ReduceFacts.run_eq_fold. Qed.
 Print Assumptions reduce_eq_fold.
 
-Theorem published_after_evaluation : forall f cf, (forall a b c, f (f a b) c = f a (f b c)) -> c_lifted cf = true ->
+Theorem published_after_evaluation : forall f cf, (forall a b c, f (f a b) c = f a (f b c)) -> c_lifted cf = true -> (c_has_zero cf = true -> c_zero_valid cf = true) ->
   forall st s vals c, cycle_inv f cf st s vals -> src_ok cf s vals c ->
   (cy_coll c || cy_zero c = true \/ r_published s = true) -> r_published (step f cf s c) = true.
 Proof. exact ReduceFacts.step_published. Qed.
@@ -202,7 +202,7 @@ Print Assumptions published_after_evaluation.
    values: two trees (any add / remove / tick order, any capacity, any dense order) whose live
    values are permutations of each other publish the same result. *)
 Theorem reduce_order_independent : forall f cf,
-  (forall a b c, f (f a b) c = f a (f b c)) -> (forall a b, f a b = f b a) -> c_lifted cf = true ->
+  (forall a b c, f (f a b) c = f a (f b c)) -> (forall a b, f a b = f b a) -> c_lifted cf = true -> (c_has_zero cf = true -> c_zero_valid cf = true) ->
   forall st1 L1 vals1 k1 combs1 st2 L2 vals2 k2 combs2,
   tree_inv f cf st1 L1 vals1 k1 combs1 -> tree_inv f cf st2 L2 vals2 k2 combs2 ->
   Permutation vals1 vals2 ->
@@ -214,7 +214,7 @@ Print Assumptions reduce_order_independent.
 (* ... and over whole histories: two histories (any order of adds / removes / ticks, any capacity
    history) whose final live values are permutations of each other publish the same result *)
 Theorem reduce_order_independent_histories : forall f cf,
-  (forall a b c, f (f a b) c = f a (f b c)) -> (forall a b, f a b = f b a) -> c_lifted cf = true ->
+  (forall a b c, f (f a b) c = f a (f b c)) -> (forall a b, f a b = f b a) -> c_lifted cf = true -> (c_has_zero cf = true -> c_zero_valid cf = true) ->
   forall h1 h2, hist_ok f cf rstate0 [] h1 -> hist_ok f cf rstate0 [] h2 ->
   r_published (run f cf h1) = true -> r_published (run f cf h2) = true ->
   Permutation (snd (final (store0, []) h1)) (snd (final (store0, []) h2)) ->
